@@ -239,6 +239,248 @@ class DmCompileOne(Harness):
         others_untouched(c)
 
 
+def build_circuit(name):
+    """fixed family of circuits for the compile()-loop glue check"""
+    import graphiq.benchmarks.circuits as bc
+    import graphiq.circuit.ops as ops
+    from graphiq.circuit.circuit_dag import CircuitDAG
+
+    if hasattr(bc, name):
+        return getattr(bc, name)()[0]
+    if name == "mix1":
+        c = CircuitDAG(n_emitter=1, n_photon=2, n_classical=2)
+        c.add(ops.Hadamard(register=0, reg_type="e"))
+        c.add(ops.CNOT(control=0, control_type="e", target=0, target_type="p"))
+        c.add(ops.OneQubitGateWrapper([ops.Phase, ops.Hadamard], register=0, reg_type="p"))
+        c.add(ops.CNOT(control=0, control_type="e", target=1, target_type="p"))
+        c.add(ops.Hadamard(register=0, reg_type="e"))
+        c.add(ops.ClassicalCZ(control=0, control_type="e", target=1, target_type="p", c_register=0))
+        c.add(ops.MeasurementZ(register=0, reg_type="p", c_register=1))
+        return c
+    if name == "mix2":
+        c = CircuitDAG(n_emitter=2, n_photon=1, n_classical=2)
+        c.add(ops.Hadamard(register=0, reg_type="e"))
+        c.add(ops.Hadamard(register=1, reg_type="e"))
+        c.add(ops.CZ(control=0, control_type="e", target=1, target_type="e"))
+        c.add(ops.CNOT(control=1, control_type="e", target=0, target_type="p"))
+        c.add(ops.OneQubitGateWrapper([ops.Hadamard, ops.Phase, ops.SigmaY], register=1, reg_type="e"))
+        c.add(ops.ClassicalCNOT(control=1, control_type="e", target=0, target_type="p", c_register=1))
+        c.add(ops.PhaseDagger(register=0, reg_type="e"))
+        c.add(ops.MeasurementCNOTandReset(control=0, control_type="e", target=0, target_type="p", c_register=0))
+        c.add(ops.SigmaX(register=1, reg_type="e"))
+        c.add(ops.MeasurementZ(register=1, reg_type="e", c_register=1))
+        return c
+    if name == "mix3":
+        c = CircuitDAG(n_emitter=1, n_photon=1, n_classical=1)
+        c.add(ops.SigmaX(register=0, reg_type="e"))
+        c.add(ops.MeasurementCNOTandReset(control=0, control_type="e", target=0, target_type="p", c_register=0))
+        c.add(ops.Identity(register=0, reg_type="p"))
+        c.add(ops.SigmaZ(register=0, reg_type="p"))
+        return c
+    raise ValueError(name)
+
+
+class CompileLoop(Harness):
+    """CompilerBase.compile (noise off) on a fixed circuit with symbolic outcomes: the final state and the classical
+    record equal the fold of the reference simulator over the circuit's operations, taken in the harness' own
+    topological order with the outcomes graphiq actually drew (matched per operation object)."""
+
+    weight = 40
+
+    def declare(self, S):
+        return {}
+
+    def body(self, S, spec):
+        from graphiq.backends.stabilizer.compiler import StabilizerCompiler
+        from oracle import chp
+
+        circuit = build_circuit(self.circuit)
+        n_p, n_e = circuit.n_photons, circuit.n_emitters
+        comp = StabilizerCompiler()
+        comp.measurement_determinism = self.det
+        drawn = {}
+        orig = comp.compile_one_gate
+        sess = S
+
+        def spy(state, op, n_quantum, q_index, cregs):
+            before = sess.n_outcomes if sess.symbolic else sess.rng_pos
+            r = orig(state, op, n_quantum, q_index, cregs)
+            after = sess.n_outcomes if sess.symbolic else sess.rng_pos
+            if hasattr(op, "c_register") and type(op).__name__ not in ("Input", "Output"):
+                drawn[(type(op).__name__, getattr(op, "control", getattr(op, "register", None)), op.c_register, len([k for k in drawn if k[0] == type(op).__name__]))] = (after - before, cregs[op.c_register])
+            return r
+
+        comp.compile_one_gate = spy
+        state = comp.compile(circuit)
+        T = state.rep_data.data
+        ops_list = chp.expand_circuit_ops(circuit)
+        meas = [v for k, v in drawn.items()]
+        pos = [0]
+
+        def next_outcome():
+            # the reference takes the outcome the real run recorded for the same measurement (same order along each
+            # classical/quantum wire); only called by the reference when ITS state says the outcome is random
+            k = pos[0] - 1
+            return meas[k][1]
+
+        sim = chp.RefSim(n_p + n_e)
+        record = {}
+
+        def idx(reg):
+            t, i = reg
+            return i if t == "p" else n_p + i
+
+        mcount = 0
+        for op in ops_list:
+            name = op[0]
+            if name in chp.ONE_Q:
+                sim.gate(chp.ONE_Q[name], idx(op[1]))
+            elif name in ("CNOT", "CZ"):
+                sim.gate(name, idx(op[1]), idx(op[2]))
+            else:
+                ndraw, recorded = meas[mcount]
+                mcount += 1
+                pos[0] = mcount
+                ctrl = idx(op[1])
+                o, was_random = sim.measure_z(ctrl, next_outcome)
+                S.prove(f"draws-only-when-random[{mcount}]", (ndraw >= 1) == was_random if self.det == "probabilistic" else ndraw == 0)
+                S.prove(f"recorded-outcome-equals-reference-outcome[{mcount}]", O.eq_bits(recorded, o))
+                if self.det in (0, 1) and was_random:
+                    S.prove(f"forced-outcome[{mcount}]", O.eq_bits(recorded, self.det))
+                if name in ("ClassicalCNOT", "ClassicalCZ"):
+                    sim.cond_gate("X" if name == "ClassicalCNOT" else "Z", idx(op[2]), o)
+                elif name == "MeasurementCNOTandReset":
+                    sim.cond_gate("X", idx(op[2]), o)
+                    sim.cond_gate("X", ctrl, o)
+                record[op[-1]] = o
+        S.prove("all-measurements-matched", mcount == len(meas))
+        if prove_inv(S, T):
+            d, st = post_rows(T)
+            for i, g in enumerate(sim.stab):
+                S.prove(f"final-state-generator[{i}]", O.member_with_destabs(g, st, d))
+
+
+class DmCompileLoop(Harness):
+    """DensityMatrixCompiler.compile on a fixed circuit from |0..0>: numerically concrete per path (the outcome
+    vector is forked, infeasible outcomes pruned by the contract p[outcome] > 0); final rho equals the dense matrix
+    of the reference simulator's state for the recorded outcomes.  Auxiliary/enumerative in the outcomes; the
+    deciding step for the density-matrix leg is DmCompileOne."""
+
+    weight = 40
+
+    def install(self):
+        from symnp import install as sinstall
+        sinstall.install(np_modules=[], int_modules=[], summaries=False)
+        sinstall.install_dm_state()
+
+    def declare(self, S):
+        return {}
+
+    def body(self, S, spec):
+        import numpy as np
+        from graphiq.backends.density_matrix.compiler import DensityMatrixCompiler
+        from oracle import chp
+
+        circuit = build_circuit(self.circuit)
+        n_p, n_e = circuit.n_photons, circuit.n_emitters
+        n = n_p + n_e
+        comp = DensityMatrixCompiler()
+        comp.measurement_determinism = self.det
+        recorded = []
+        orig = comp.compile_one_gate
+
+        def spy(state, op, n_quantum, q_index, cregs):
+            r = orig(state, op, n_quantum, q_index, cregs)
+            if hasattr(op, "c_register") and type(op).__name__ not in ("Input", "Output"):
+                recorded.append(int(cregs[op.c_register]))
+            return r
+
+        comp.compile_one_gate = spy
+        state = comp.compile(circuit)
+        rho = np.asarray(state.rep_data.data, dtype=complex)
+        ops_list = chp.expand_circuit_ops(circuit)
+        it = iter(recorded)
+        cur = [0]
+
+        def fresh():
+            return cur[0]
+
+        sim = chp.RefSim(n)
+
+        def idx(reg):
+            t, i = reg
+            return i if t == "p" else n_p + i
+
+        k = 0
+        for op in ops_list:
+            name = op[0]
+            if name in chp.ONE_Q:
+                sim.gate(chp.ONE_Q[name], idx(op[1]))
+            elif name in ("CNOT", "CZ"):
+                sim.gate(name, idx(op[1]), idx(op[2]))
+            else:
+                cur[0] = recorded[k]
+                k += 1
+                o, was_random = sim.measure_z(idx(op[1]), fresh)
+                S.prove(f"recorded-outcome-possible[{k}]", int(o) == cur[0])
+                if self.det in (0, 1) and was_random:
+                    S.prove(f"forced-outcome[{k}]", cur[0] == self.det)
+                if name in ("ClassicalCNOT", "ClassicalCZ"):
+                    sim.cond_gate("X" if name == "ClassicalCNOT" else "Z", idx(op[2]), o)
+                elif name == "MeasurementCNOTandReset":
+                    sim.cond_gate("X", idx(op[2]), o)
+                    sim.cond_gate("X", idx(op[1]), o)
+        ref = np.eye(2 ** n, dtype=complex)
+        for g in sim.stab:
+            m = O.pauli_matrix(g.x, g.z) * (-1 if int(g.hi) else 1)
+            ref = ref @ (np.eye(2 ** n) + m) / 2
+        S.prove("final-density-matrix-equals-reference-state", bool(np.allclose(rho, ref, atol=1e-9)))
+        S.prove("trace-one", bool(abs(np.trace(rho) - 1) < 1e-9))
+
+
+class OracleTie(Harness):
+    """the two oracles describe the same gates: sqrt(scale2)*M of oracle.dm equals the textbook matrix oracle.pauli's
+    conjugation tables were derived from; graphiq's own 2x2 matrices equal them as well (concrete numerics)"""
+
+    def declare(self, S):
+        return {}
+
+    def body(self, S, spec):
+        import numpy as np
+        from oracle import dm as D
+        import graphiq.backends.density_matrix.functions as dmf
+
+        for name, (s2, M) in D.GATES.items():
+            m = np.sqrt(float(s2)) * np.array(M, dtype=complex)
+            S.prove(f"oracles-agree[{name}]", bool(np.allclose(m, O.ONE_QUBIT[name], atol=1e-12)))
+        lib = {"I": dmf.identity(), "H": dmf.hadamard(), "P": dmf.phase(), "P_dag": dmf.phase_dag(), "X": dmf.sigmax(), "Y": dmf.sigmay(), "Z": dmf.sigmaz()}
+        for name, m in lib.items():
+            S.prove(f"graphiq-matrix-is-textbook[{name}]", bool(np.allclose(np.asarray(m, dtype=complex), O.ONE_QUBIT[name], atol=1e-12)))
+        for n in (2, 3):
+            for c in range(n):
+                for t in range(n):
+                    if c == t:
+                        continue
+                    for nm, u2 in (("X", O.CNOT), ("Z", O.CZ)):
+                        g = dmf.get_two_qubit_controlled_gate(n, c, t, lib[nm])
+                        # textbook: |0><0|_c (x) I + |1><1|_c (x) U_t
+                        ref = np.zeros((2 ** n, 2 ** n), dtype=complex)
+                        for i in range(2 ** n):
+                            for j in range(2 ** n):
+                                bi = [(i >> (n - 1 - q)) & 1 for q in range(n)]
+                                bj = [(j >> (n - 1 - q)) & 1 for q in range(n)]
+                                if any(bi[q] != bj[q] for q in range(n) if q != t):
+                                    continue
+                                u = O.ONE_QUBIT[nm] if bi[c] else O.I2
+                                ref[i, j] = u[bi[t], bj[t]]
+                        S.prove(f"controlled-gate-matrix[{nm},{n},{c},{t}]", bool(np.allclose(g, ref, atol=1e-12)))
+            for q in range(n):
+                pr = dmf.projectors_zbasis(n, q)
+                for o in (0, 1):
+                    ref = np.diag([1.0 if ((i >> (n - 1 - q)) & 1) == o else 0.0 for i in range(2 ** n)])
+                    S.prove(f"projector[{n},{q},{o}]", bool(np.allclose(pr[o], ref)))
+
+
 class RegToIndex(Harness):
     """CompilerBase.reg_to_index_func: photons map to 0..n_p-1, emitters to n_p.., injective (symbolic ints)"""
 
@@ -281,6 +523,12 @@ def plan(tier):
                         continue
                     jobs.append((StabCompileOne(op=op, n_p=n_p, n_e=n_e, regs=[list(a), list(b)], det=det, c=1), {}))
     jobs.append((RegToIndex(), {}))
+    jobs.append((OracleTie(), {}))
+    circuits = ["ghz3_state_circuit", "linear_cluster_3qubit_circuit", "mix1", "mix2", "mix3"] + ([] if q else ["ghz4_state_circuit", "linear_cluster_4qubit_circuit"])
+    for cname in circuits:
+        for det in (0, 1, "probabilistic"):
+            jobs.append((CompileLoop(circuit=cname, det=det), {}))
+            jobs.append((DmCompileLoop(circuit=cname, det=det), {}))
     # -- density-matrix leg -------------------------------------------------------------------------------
     dm_sizes = [(1, 0), (0, 1), (1, 1), (2, 0)] if q else [(1, 0), (0, 1), (1, 1), (2, 0), (0, 2), (2, 1), (1, 2)]
     for n_p, n_e in dm_sizes:
